@@ -550,7 +550,7 @@ func run(args []string) error {
 	}
 	o.Def("cases_ops", "Z * bool * list (op * out * pl)", ops)
 
-	o.Side["rule"] = fmt.Sprintf("validateAddress on %d adversarial strings x allowLocalhost {false,true} (IPv6, leading zeros, unicode digits / spaces, several colons, port boundaries 0/1023/1024/65535/65536, signs, hex, localhost, octet and classification boundaries, NUL / invalid UTF-8) + %d generated strings (structured from boundary pools, classification boundaries, whitespace injection, one-byte mutations, random bytes); %d peer-list operation sequences (10-34 operations, Max in {0,1,3,5}, time passing via LastSeen, rand.Shuffle replayed through rand.Seed), peer list dumped after every operation. Non-trivial = validateAddress reached a check beyond the syntactic ones, or any list operation; distinct by input / (list, operation)", len(adversarial), nval, seqDone)
+	o.Side["rule"] = fmt.Sprintf("validateAddress on %d adversarial strings x allowLocalhost {false,true} (IPv6, leading zeros, unicode digits / spaces, several colons, port boundaries 0/1023/1024/65535/65536, signs, hex, localhost, octet and classification boundaries, NUL / invalid UTF-8) + %d generated strings (structured from boundary pools, classification boundaries, whitespace injection, one-byte mutations, random bytes); %d peer-list operation sequences (Max in {0,1,3,5}, time passing via LastSeen, rand.Shuffle replayed through rand.Seed), peer list dumped after every operation; about half start with a scripted scenario around a threshold constant - 9..12 IncreaseRetryTimes (MaxPeerRetryTimes 10 -1/0/+1/+2) on a trusted and an untrusted peer, both aged to expiration -10/+10/+1000 s, then clearOld (the first 8 sequences walk this systematically); a full list aged around the one-day eviction age 86400 -10/+10/+-1000 s with some peers trusted, then AddPeer; a list filled to Max-2..Max then AddPeers; peers aged around each clearOld period - and then continue randomly. Non-trivial = validateAddress reached a check beyond the syntactic ones, or any list operation; distinct by input / (list, operation)", len(adversarial), nval, seqDone)
 	o.Side["distribution"] = hist.Sorted()
 	o.Side["samples"] = samples
 	o.Side["cases"] = caseJSON
